@@ -37,6 +37,10 @@ def ceil16(n):
     return (n + 15) // 16 * 16
 
 
+def align16(d):
+    return bytes(d) + bytes(ceil16(len(d)) - len(d))
+
+
 def crc32_mpeg2(data: bytes) -> int:
     """Independent bitwise CRC-32/MPEG-2 (poly 0x04C11DB7, init 0xFFFFFFFF, no reflection, no final xor)."""
     crc = 0xFFFFFFFF
@@ -649,10 +653,33 @@ def eval_nxp(s, bt, case):
     lo = min(a for a, _ in datas)
 
     def tree():
+        """`group`: lists of piece indices that form ONE data blob made of several segments (what load_binary_image builds from
+        an S-record / HEX / ELF file: a parent image without own binary and 'Segment i' sub-images); other pieces are plain blobs."""
         binaries = BinaryImage("enc", offset=lo - ta)
+        grouped = set()
+        for g, members in enumerate(case.get("group") or []):
+            g_lo = min(datas[j][0] for j in members)
+            parent = BinaryImage(f"blob{g}", offset=g_lo - lo)
+            for k2, j in enumerate(sorted(members, key=lambda j: datas[j][0])):
+                parent.add_image(BinaryImage(f"Segment {k2}", offset=datas[j][0] - g_lo, binary=datas[j][1]))
+                grouped.add(j)
+            binaries.add_image(parent)
         for j, (a, d) in enumerate(datas):
-            binaries.add_image(BinaryImage(f"d{j}", offset=a - lo, binary=d))
+            if j not in grouped:
+                binaries.add_image(BinaryImage(f"d{j}", offset=a - lo, binary=d))
         return binaries
+
+    def pieces_oracle(mem, enc_piece, what):
+        """every piece (segment) must be encrypted for ITS absolute address: equal to <engine>.encrypt_image(piece, address) of the
+        real API; the gaps between the pieces stay fill bytes"""
+        order = sorted(datas)
+        for a, d in order:
+            r_p = pyres(enc_piece, d, a)
+            s.expect(r_p[0] == "ok" and mem[a - ta:a - ta + len(r_p[1])] == r_p[1], case,
+                     what + ": a data blob / segment in the exported memory image is not encrypt_image(segment, its absolute address)", hex(a))
+        for (a, d), (a2, _) in zip(order, order[1:]):
+            gap = mem[a - ta + ceil16(len(d)):a2 - ta]
+            s.expect(not any(gap), case, what + ": the gap between two data blobs / segments is not left as fill bytes", hex(a + ceil16(len(d))))
     if case["k"] == "otfadnxp":
         from spsdk.utils.crypto.otfad import KeyBlob, OtfadNxp
         blobs = case["blobs"]
@@ -666,6 +693,9 @@ def eval_nxp(s, bt, case):
         if not s.expect(r[0] == "ok", case, "OtfadNxp.binary_image().export() raised on a valid configuration", r):
             return None
         mem, sc, rev, nall = r[1]
+        o_plain = pyres(otfad_make, case)
+        if o_plain[0] == "ok":
+            pieces_oracle(mem, lambda d, a: o_plain[1].encrypt_image(align16(d), a, False), "OtfadNxp")
         idx = []
         for a, d in datas:
             ct = mem[a - ta:a - ta + ceil16(len(d))]
@@ -688,17 +718,19 @@ def eval_nxp(s, bt, case):
         c2 = dict(case)
         o0 = iee_make(c2)
         o = m.IeeNxp(case["family"], ta, bytes.fromhex(case["k1"]), bytes.fromhex(case["k2"]), o0._key_blobs, tree())
-        return o.binary_image().export(), o.generate_keyblob
+        img = o.binary_image()
+        return img.export(), o.generate_keyblob, o0, o0.encrypt_key_blobs(bytes.fromhex(case["k1"]), bytes.fromhex(case["k2"]), ta), img.absolute_address
     r = pyres(real)
     if not s.expect(r[0] == "ok", case, "IeeNxp.binary_image().export() raised on a valid configuration", r):
         return None
-    mem, has_kb = r[1]
-    if not has_kb:
-        return None
+    mem, has_kb, o0, table, org = r[1]
+    if has_kb:
+        s.expect(mem[:len(table)] == table, case, "IeeNxp: the head of the exported memory image is not encrypt_key_blobs()")
+    pieces_oracle(mem, lambda d, a: o0.encrypt_image(d, a), "IeeNxp")
     idx = []
     for a, d in datas:
         ct = mem[a - ta:a - ta + ceil16(len(d))]
-        idx.append((a, d, bt.add(f"iee_hwtab {case['k1']} {case['k2']} {ta} {len(blobs)} {tok(mem[:384])} {a} {tok(ct)}")))
+        idx.append((a, d, bt.add(f"iee_hwtab {case['k1']} {case['k2']} {ta} {len(blobs)} {tok(table)} {a} {tok(ct)}")))
 
     def fin():
         for a, d, i in idx:
@@ -706,6 +738,17 @@ def eval_nxp(s, bt, case):
             s.expect(hw is not None and hw[:len(d)] == d, case,
                      "IeeNxp: the engine programmed from the exported key blobs does not read a data blob back from the exported memory image", hex(a))
     return fin
+
+
+def segment_groups(rng, n):
+    """which pieces form one multi-segment data blob: [] (all plain), one group of all pieces, or two groups"""
+    if n < 2 or rng.random() < 0.3:
+        return []
+    if n >= 4 and rng.random() < 0.4:
+        return [[0, 1], [2, 3]]
+    if n >= 3 and rng.random() < 0.3:
+        return [list(range(1, n))]
+    return [list(range(n))]
 
 
 def gen_nxp_cases(rng, n):
@@ -728,7 +771,7 @@ def gen_nxp_cases(rng, n):
                 ln = rng.choice([1, 16, 100, 1000, 1024, 3000])
                 data.append([pos, ln, rng.getrandbits(32)])
                 pos += ceil16(ln) + 16 * rng.randrange(0, 100)
-            c.update({"k": "otfadnxp", "family": rng.choice(of), "ta": ta, "data": data})
+            c.update({"k": "otfadnxp", "family": rng.choice(of), "ta": ta, "data": data, "group": segment_groups(rng, len(data))})
             out.append(c)
         else:
             c = gen_iee_case(rng, False)
@@ -738,12 +781,17 @@ def gen_nxp_cases(rng, n):
             for b in c["blobs"]:
                 b["s"] += off
                 b["e"] += off
+            # 1..4 pieces at page-aligned addresses chosen around the region boundaries: inside a region, crossing its end into a gap
+            # or into the next region, in a second region, outside every region
+            cands = sorted({a for b in c["blobs"] for a in (b["s"], b["e"] - 4096, b["e"], b["s"] + 4096 * rng.randrange(0, 4), b["e"] + 4096 * rng.randrange(1, 4))
+                            if a >= ta + 0x1000})
             data, pos = [], ta + 0x1000
-            for _ in range(rng.choice([1, 2])):
-                ln = rng.choice([1, 16, 100, 4096, 5000])
+            for a in sorted(rng.sample(cands, min(len(cands), rng.choice([1, 2, 3, 4])))):
+                pos = max(pos, a)
+                ln = rng.choice([1, 16, 100, 4096, 5000, 8192, 12000])
                 data.append([pos, ln, rng.getrandbits(32)])
                 pos += 4096 * ((ln + 4095) // 4096 + rng.randrange(0, 3))
-            c.update({"k": "ieenxp", "family": rng.choice(ief), "ta": ta, "kba": ta, "data": data})
+            c.update({"k": "ieenxp", "family": rng.choice(ief), "ta": ta, "kba": ta, "data": data, "group": segment_groups(rng, len(data))})
             out.append(c)
     return out
 
@@ -1008,7 +1056,21 @@ def eval_cli(s, bt, case):
         cfg = {"family": case["family"], "output_folder": "out", "output_name": "whole", "keyblob_name": "kb", "encrypted_name": "blobs",
                "generate_readme": False, "generate_fuses_script": False, "keyblob_address": hex(ta), "data_blobs": [],
                "ibkek1": "0x" + case["k1"], "ibkek2": "0x" + case["k2"], "key_blobs": []}
+        grouped = set()
+        for g, members in enumerate(case.get("group") or []):
+            # one S-record / Intel-HEX file with several segments (gaps between them): no address in the configuration
+            import bincopy
+            bf = bincopy.BinFile()
+            for j in members:
+                bf.add_binary(datas[j][1], address=datas[j][0])
+                grouped.add(j)
+            ext = "s19" if (g + len(members)) % 2 else "hex"
+            with open(os.path.join(d, f"g{g}.{ext}"), "w") as fh:
+                fh.write(bf.as_srec() if ext == "s19" else bf.as_ihex())
+            cfg["data_blobs"].append({"data": f"g{g}.{ext}"})
         for j, (a, dta) in enumerate(datas):
+            if j in grouped:
+                continue
             with open(os.path.join(d, f"d{j}.bin"), "wb") as fh:
                 fh.write(dta)
             cfg["data_blobs"].append({"data": f"d{j}.bin", "address": hex(a)})
@@ -1025,6 +1087,16 @@ def eval_cli(s, bt, case):
         if kb is None:
             return None                   # family without generated key blob
         s.expect(whole[:len(kb)] == kb and len(kb) % 384 == 0, case, "nxpimage iee export: the written key-blob file is not the head of the whole image")
+        r0 = pyres(iee_make, case)
+        if r0[0] == "ok":
+            for a, dta in sorted(datas):
+                r_p = pyres(r0[1].encrypt_image, dta, a)
+                s.expect(r_p[0] == "ok" and whole[a - ta:a - ta + len(r_p[1])] == r_p[1], case,
+                         "nxpimage iee export: a data blob / segment in the written image is not Iee.encrypt_image(segment, its absolute address)", hex(a))
+            order = sorted(datas)
+            for (a, dta), (a2, _) in zip(order, order[1:]):
+                s.expect(not any(whole[a - ta + ceil16(len(dta)):a2 - ta]), case,
+                         "nxpimage iee export: the gap between two data blobs / segments is not left as fill bytes", hex(a))
         i_un = bt.add(f"iee_unwrap {case['k1']} {case['k2']} {ta} {len(blobs)} {tok(kb)}")
         idx = [(a, dta, bt.add(f"iee_hwtab {case['k1']} {case['k2']} {ta} {len(blobs)} {tok(kb)} {a} {tok(whole[a - ta:a - ta + ceil16(len(dta))])}"))
                for a, dta in datas]
@@ -1147,6 +1219,15 @@ def fixed_cases():
     out.append({"k": "bee", "img": [0x800, 8], "base": 0x0C10, "engines": [eng, None], "split": 0x400})
     out.append({"k": "bee", "img": [0x800, 9], "base": 0x1410, "engines": [None, eng], "split": 0x10})
     out.append({"k": "bee", "img": [33, 10], "base": 0x0FF0, "engines": [eng, None], "split": 16})
+    # a data blob made of several segments (S-record / HEX input): every segment is encrypted for ITS absolute address
+    seg = {"family": "mimxrt1176", "ta": 0x30000000, "kba": 0x30000000, "img": [0, 0], "base": 0x30000000, "split": 0, "k1": "40" * 32, "k2": "61" * 32,
+           "blobs": [dict(ib, mode=1, s=0x30001000, e=0x30004000), dict(ib, mode=2, ks=0, s=0x30004000, e=0x30008000, k1="33" * 16, k2="44" * 16)],
+           "data": [[0x30002000, 4096, 21], [0x30003000, 5000, 22], [0x30006000, 100, 23], [0x30009000, 16, 24]], "group": [[0, 1, 2, 3]]}
+    out.append(dict(seg, k="ieenxp"))
+    out.append(dict(seg, k="cli_iee", group=[[0, 1], [2, 3]]))
+    out.append({"k": "otfadnxp", "family": "mimxrt595s", "ta": 0x08000000, "kek": "ff" * 16, "scr": None, "rev": False, "sc": 0, "swap": False,
+                "blobs": [dict(blob, s=0x08001000, e=0x08001FFF), dict(blob, s=0x08002000, e=0x08002400, key="aa" * 16)],
+                "data": [[0x08001010, 100, 31], [0x08001C00, 2048, 32], [0x08002800, 16, 33]], "group": [[0, 1, 2]]})
     # fixes C13-5/6/7: constructor sizes; SB2.1 encrypt off the blob start; keywrap flags from the end address
     out.append({"k": "ctor", "blob": {"s": 0x1000, "e": 0x1FFF, "key": "00" * 32, "ctr": "00" * 8, "fl": 3, "zf": "00000000", "crc": ""}})
     out.append({"k": "ctor", "blob": {"s": 0x1000, "e": 0x1FFF, "key": "00" * 16, "ctr": "00" * 7, "fl": 3, "zf": "00000000", "crc": ""}})
